@@ -212,6 +212,11 @@ func (r *Rec) leave(group, thread, x string) {
 	r.running.Add(-1)
 }
 
+// Enter and Leave are the exported forms of the running-callback bracket,
+// for Go-native callbacks that a check installs itself.
+func (r *Rec) Enter(group, thread, x string) { r.enter(group, thread, x) }
+func (r *Rec) Leave(group, thread, x string) { r.leave(group, thread, x) }
+
 func (r *Rec) job(group, thread string) {
 	r.enter(group, thread, group)
 	n := 3
